@@ -23,6 +23,7 @@ import (
 	"database/sql/driver"
 	"errors"
 	"fmt"
+	"sync"
 	"time"
 
 	"seata.apache.org/seata-go/pkg/datasource/sql/types"
@@ -41,11 +42,66 @@ type XAConn struct {
 	tx                 driver.Tx
 	xaResource         xa.XAResource
 	xaBranchXid        *XABranchXid
-	xaActive           bool
 	rollBacked         bool
 	branchRegisterTime time.Time
-	prepareTime        time.Time
-	isConnKept         bool
+
+	// holdMu guards what the resource manager (second phase) and the hold-time checker look at from
+	// their own goroutines
+	holdMu      sync.Mutex
+	xaActive    bool
+	prepareTime time.Time
+	isConnKept  bool
+	heldID      string // the branch the connection is held for
+	poolClosed  bool   // database/sql gave the connection up while it was held: the keeper owns it
+	physClosed  bool   // the physical connection has been closed
+	transient   bool   // opened by the resource manager for one second-phase command
+}
+
+func (c *XAConn) isActive() bool {
+	c.holdMu.Lock()
+	defer c.holdMu.Unlock()
+	return c.xaActive
+}
+
+func (c *XAConn) setActive(active bool) {
+	c.holdMu.Lock()
+	c.xaActive = active
+	c.holdMu.Unlock()
+}
+
+// holdState is what the hold-time checker needs to know
+func (c *XAConn) holdState() (active bool, preparedAt time.Time) {
+	c.holdMu.Lock()
+	defer c.holdMu.Unlock()
+	return c.xaActive, c.prepareTime
+}
+
+// IsValid implements driver.Validator: a connection that is held for the second phase of a branch is
+// not handed to the next caller. database/sql drops it from the pool (Close keeps it open for the
+// keeper); whoever releases the hold closes it.
+func (c *XAConn) IsValid() bool {
+	c.holdMu.Lock()
+	kept := c.isConnKept
+	c.holdMu.Unlock()
+	if kept {
+		return false
+	}
+	if v, ok := c.targetConn.(driver.Validator); ok {
+		return v.IsValid()
+	}
+	return true
+}
+
+// closePhysical closes the target connection once
+func (c *XAConn) closePhysical() error {
+	c.holdMu.Lock()
+	already := c.physClosed
+	c.physClosed = true
+	c.holdMu.Unlock()
+	if already {
+		return nil
+	}
+	return c.Conn.Close()
 }
 
 func (c *XAConn) PrepareContext(ctx context.Context, query string) (driver.Stmt, error) {
@@ -132,7 +188,7 @@ func (c *XAConn) BeginTx(ctx context.Context, opts driver.TxOptions) (driver.Tx,
 	c.tx = tx
 
 	if !c.autoCommit {
-		if c.xaActive {
+		if c.isActive() {
 			return nil, errors.New("should NEVER happen: setAutoCommit from true to false while xa branch is active")
 		}
 
@@ -154,7 +210,7 @@ func (c *XAConn) BeginTx(ctx context.Context, opts driver.TxOptions) (driver.Tx,
 			c.cleanXABranchContext()
 			return nil, fmt.Errorf("failed to start xa branch xid:%s err:%w", c.txCtx.XID, err)
 		}
-		c.xaActive = true
+		c.setActive(true)
 	}
 
 	return &XATx{tx: tx.(*Tx), conn: c}, nil
@@ -225,17 +281,32 @@ func (c *XAConn) createNewTxOnExecIfNeed(ctx context.Context, f func() (types.Ex
 
 func (c *XAConn) keepIfNecessary() {
 	if c.ShouldBeHeld() {
-		if err := c.res.Hold(c.xaBranchXid.String(), c); err == nil {
-			c.isConnKept = true
+		id := c.xaBranchXid.String()
+		if err := c.res.Hold(id, c); err == nil {
+			c.holdMu.Lock()
+			c.isConnKept, c.heldID = true, id
+			c.holdMu.Unlock()
 		}
 	}
 }
 
+// releaseIfNecessary gives up the hold for the branch it was taken for. A connection database/sql gave
+// up meanwhile belongs to nobody any more and is closed.
 func (c *XAConn) releaseIfNecessary() {
-	if c.ShouldBeHeld() && c.xaBranchXid.String() != "" {
-		if c.isConnKept {
-			c.res.Release(c.xaBranchXid.String())
-			c.isConnKept = false
+	if !c.ShouldBeHeld() {
+		return
+	}
+	c.holdMu.Lock()
+	kept, id, orphan := c.isConnKept, c.heldID, c.poolClosed
+	c.isConnKept, c.heldID = false, ""
+	c.holdMu.Unlock()
+	if !kept {
+		return
+	}
+	c.res.Release(id)
+	if orphan {
+		if err := c.closePhysical(); err != nil {
+			log.Errorf("close released xa connection of %s: %v", id, err)
 		}
 	}
 }
@@ -283,9 +354,12 @@ func (c *XAConn) termination(xaBranchXid string) error {
 func (c *XAConn) cleanXABranchContext() {
 	h, _ := time.ParseDuration("-1000h")
 	c.branchRegisterTime = time.Now().Add(h)
+	c.holdMu.Lock()
 	c.prepareTime = time.Now().Add(h)
 	c.xaActive = false
-	if !c.isConnKept {
+	kept := c.isConnKept
+	c.holdMu.Unlock()
+	if !kept {
 		c.xaBranchXid = nil
 	}
 }
@@ -295,7 +369,7 @@ func (c *XAConn) Rollback(ctx context.Context) error {
 		return nil
 	}
 
-	if !c.xaActive || c.xaBranchXid == nil {
+	if !c.isActive() || c.xaBranchXid == nil {
 		return fmt.Errorf("should NOT rollback on an inactive session")
 	}
 
@@ -325,7 +399,7 @@ func (c *XAConn) Commit(ctx context.Context) error {
 		return nil
 	}
 
-	if !c.xaActive || c.xaBranchXid == nil {
+	if !c.isActive() || c.xaBranchXid == nil {
 		return fmt.Errorf("should NOT commit on an inactive session")
 	}
 
@@ -343,9 +417,11 @@ func (c *XAConn) Commit(ctx context.Context) error {
 	if err := c.xaResource.XAPrepare(ctx, c.xaBranchXid.String()); err != nil {
 		return c.commitErrorHandle(ctx, err)
 	}
-	// the branch is prepared: this session is free for the next branch
+	// the branch is prepared
+	c.holdMu.Lock()
 	c.prepareTime = time.Now()
 	c.xaActive = false
+	c.holdMu.Unlock()
 	return nil
 }
 
@@ -365,18 +441,20 @@ func (c *XAConn) ShouldBeHeld() bool {
 
 func (c *XAConn) Close() error {
 	c.rollBacked = false
+	c.holdMu.Lock()
 	if c.isConnKept && c.ShouldBeHeld() {
+		// database/sql is done with the connection, the keeper is not: it stays open until the hold is released
+		c.poolClosed = true
+		c.holdMu.Unlock()
 		return nil
 	}
+	c.holdMu.Unlock()
 	c.cleanXABranchContext()
-	if err := c.Conn.Close(); err != nil {
-		return err
-	}
-	return nil
+	return c.closePhysical()
 }
 
 func (c *XAConn) CloseForce() error {
-	if err := c.Conn.Close(); err != nil {
+	if err := c.closePhysical(); err != nil {
 		return err
 	}
 	c.rollBacked = false
@@ -385,11 +463,23 @@ func (c *XAConn) CloseForce() error {
 	return nil
 }
 
-func (c *XAConn) XaCommit(ctx context.Context, xaXid XAXid) error {
-	err := c.xaResource.Commit(ctx, xaXid.String(), false)
+// afterSecondPhase: a connection opened for this one command is closed; a held one is released once
+// the command went through (a failed command keeps it for the coordinator's retry)
+func (c *XAConn) afterSecondPhase(err error) {
+	if c.transient {
+		if cerr := c.closePhysical(); cerr != nil {
+			log.Errorf("close xa second-phase connection: %v", cerr)
+		}
+		return
+	}
 	if err == nil {
 		c.releaseIfNecessary()
 	}
+}
+
+func (c *XAConn) XaCommit(ctx context.Context, xaXid XAXid) error {
+	err := c.xaResource.Commit(ctx, xaXid.String(), false)
+	c.afterSecondPhase(err)
 	return err
 }
 
@@ -399,8 +489,6 @@ func (c *XAConn) XaRollbackByBranchId(ctx context.Context, xaXid XAXid) error {
 
 func (c *XAConn) XaRollback(ctx context.Context, xaXid XAXid) error {
 	err := c.xaResource.Rollback(ctx, xaXid.String())
-	if err == nil {
-		c.releaseIfNecessary()
-	}
+	c.afterSecondPhase(err)
 	return err
 }
